@@ -325,6 +325,14 @@ def monitors(scn, trace):
             bad("C05", "terminates",
                 "fair continuation did not terminate within the potential bound; "
                 "states=%s live=%s" % (o.state, sorted(live.values())))
+            if cancel_requested_at is None:
+                for i in range(1, n + 1):
+                    if not ((anc[i] | {i}) & set(unsuccessful_at)) and o.state[i] != "FINISHED" \
+                            and not dry:
+                        bad("C02", "unrelated-run-to-completion",
+                            "step %d depends on no unsuccessful step but is left %s and the study "
+                            "never completes (states %s)" % (i, o.state[i], o.state))
+                        break
             break
         is_poll = op["op"] == "poll"
         code = op.get("code")
@@ -544,6 +552,13 @@ def monitors(scn, trace):
                             and i not in ever_submitted and not dry:
                         bad("C05", "runs-everything-runnable",
                             "op %d: study ended %s but step %d, whose dependencies all succeeded, was never run" % (k, o.ret, i))
+            if cancel_requested_at is None and not dry:
+                for i in range(1, n + 1):
+                    if not ((anc[i] | {i}) & set(unsuccessful_at)) and st[i] != "FINISHED":
+                        bad("C02", "unrelated-run-to-completion",
+                            "op %d: study ended %s but step %d, which depends on no unsuccessful "
+                            "step, is %s" % (k, o.ret, i, st[i]))
+                        break
             if dry:
                 if o.ret != "FINISHED":
                     bad("C17", "terminates-successfully", "dry run returned %s" % o.ret)
